@@ -96,6 +96,20 @@ theorem edge_offset_semantics (s e a r : Rat) (hse : s ≤ e) :
     simp [Length.calc_offset, h1, ha]
   · simp [Length.calc_offset]
 
+/-- the same along a range that runs backwards (the travel of a connector from right to left or from
+    bottom to top): positive units lead from the start towards the end, negative units lead back from
+    the end towards the start - either way the offset point lies on the far side of the point it is
+    measured from -/
+theorem edge_offset_semantics_reversed (s e a : Rat) (hse : e < s) :
+    (0 ≤ a → (Length.Absolute a).calc_offset s e = s - a) ∧
+    (a < 0 → (Length.Absolute a).calc_offset s e = e - a) := by
+  refine ⟨fun ha => ?_, fun ha => ?_⟩
+  · have h2 : ¬ a < 0 := not_lt.mpr ha
+    simp [Length.calc_offset, hse, h2]
+    ring
+  · simp [Length.calc_offset, hse, ha]
+    ring
+
 theorem edge_points (b : BoundingBox) (l : Length) :
     b.locspec (.TopEdge l) = (l.calc_offset b.x1 b.x2, b.y1) ∧
     b.locspec (.BottomEdge l) = (l.calc_offset b.x1 b.x2, b.y2) ∧
@@ -178,6 +192,7 @@ end Svgdx.Props.C09
 #print axioms Svgdx.Props.C09.chainH_exact
 #print axioms Svgdx.Props.C09.locspec_named
 #print axioms Svgdx.Props.C09.edge_offset_semantics
+#print axioms Svgdx.Props.C09.edge_offset_semantics_reversed
 #print axioms Svgdx.Props.C09.edge_points
 #print axioms Svgdx.Props.C09.ratio_ends
 #print axioms Svgdx.Props.C09.xy_loc_anchor_on_target
